@@ -12,12 +12,10 @@ from __future__ import annotations
 import ast
 import itertools
 
-from ..models import ModelEval, PyObj, Marker, Raised
+from ..models import ModelEval, Raised
 from ..peval import Model, Unsupported, ProgramRaised
-from ..poly import Poly, Rat, Fn
-from ..source import AnalysisError, const_value, walk_no_nested
-from ..symnp import Sym, Sc, origin_of
-from .core_models import UnitTok
+from ..source import AnalysisError, const_value
+from ..symnp import Sym, Sc
 
 ERR = (Unsupported, AnalysisError)
 HIL = "io/hilbert.py"
